@@ -326,7 +326,7 @@ func scriptedLegacy(c *hk.Ctx, p plan) {
 		return cl.CallTool(ctx, &mcp.CallToolRequest{Params: mcp.CallToolParams{Name: "echo", Arguments: map[string]interface{}{"nonce": nonce}}})
 	}, p, "sl", wl.get, nil)
 	done := scriptedOutcome(res, wl.get)
-	emitScripted(c, "sprintfV", p, done, "scripted-legacy")
+	emitScripted(c, keyKindOf("legacy"), p, done, "scripted-legacy")
 	if n := mcp.VerifPendingClientRequests(cl); n != 0 {
 		c.Violate(hk.Violation{Fingerprint: "pending:table-not-empty:legacy", What: "entries left in the client's pending table after every call returned", Observed: n})
 	}
@@ -540,6 +540,6 @@ func scriptedStreamable(c *hk.Ctx, mode string, start int64) {
 		case "nothing":
 			evs = []any{"n"}
 		}
-		c.Emit(map[string]any{"c": "pending.postSse", "call": id, "handlers": handlers, "evs": evs}, map[string]any{"out": out}, clName != "ok", "scripted-stream-"+mode, "scripted-sse-"+clName)
+		c.Emit(map[string]any{"c": "pending.postSse", "kind": keyKindOf("stream-sse"), "call": id, "handlers": handlers, "evs": evs}, map[string]any{"out": out}, clName != "ok", "scripted-stream-"+mode, "scripted-sse-"+clName)
 	}
 }
